@@ -185,13 +185,13 @@ class TdMpsJob(object):
         os.makedirs(self.dump_dir, exist_ok=True)
         file_path = os.path.join(self.dump_dir, self.job_name + ".npz")
         bak_path = file_path + ".bak"
-        if os.path.exists(file_path):
-            # in case of shutdown while dumping
-            if os.path.exists(bak_path):
-                os.remove(bak_path)
-            os.rename(file_path, bak_path)
-
-        np.savez(file_path, **d)
+        # in case of shutdown while dumping: write to a temporary file and move it into place
+        # atomically, so that a complete result file exists at any instant (also when the job is
+        # restarted in a directory that holds a partial file left by an earlier crash)
+        tmp_path = file_path + ".tmp"
+        with open(tmp_path, "wb") as fout:
+            np.savez(fout, **d)
+        os.replace(tmp_path, file_path)
 
         if os.path.exists(bak_path):
             os.remove(bak_path)
